@@ -127,6 +127,20 @@ def build(run):
                     return rule_case(mkrs, t, kinds, V, lambda seeds, vc: SpatialLayer(vc[0], seeds, kind), dom=tri, tmo=tmo, tag=tag)
                 run.add(tag, thunk, kind="values")
 
+    # ---- (a') complex mode: conj / real / imag commute with differentiation w.r.t. the (real) coordinates
+    from ufv.semv import complex_world
+    for rsname, mkrs, kind, V in [("GradRuleset", lambda: GradRuleset(2), "x", (2,)), ("ReferenceGradRuleset", lambda: ReferenceGradRuleset(2), "X", (2,))]:
+        for t in templates():
+            if t.cls not in (C.Conj, C.Real, C.Imag, C.Sum, C.Product, C.Division):
+                continue
+            k = len(t.specs)
+            kinds = ("opq",) * k
+            tag = f"{rsname}/{t.name}/" + ",".join(kinds) + "/complex-mode"
+
+            def thunk_c(t=t, kinds=kinds, tag=tag, mkrs=mkrs, kind=kind, V=V):
+                return rule_case(mkrs, t, kinds, V, lambda seeds, vc: SpatialLayer(vc[0], seeds, kind), dom=tri, tmo=tmo, tag=tag, mkworld=complex_world())
+            run.add(tag, thunk_c, kind="values")
+
     # ---- (c) terminal rules on the affine cell
     def terminal_case(name, msh, mk_o, rs_factory, kind, needs_square=False):
         t = msh.ufl_cell().topological_dimension
